@@ -2854,6 +2854,17 @@ fn crud_integrity(sys: &CrudSys) -> Vec<(String, String)> {
             }
         }
     }
+    // the daemon hands the ROA table to the evaluation only when the assignment says it needs it
+    // (TableManager::apply_import: `policy.needs_rpki.then(..)`): the flag must say so exactly
+    // when one of the assignment's statements has an RPKI condition
+    for (i, a) in sys.slot.iter().enumerate() {
+        let Some(a) = a else { continue };
+        let who = ["global import", "global export", "per-peer export"][i];
+        let has = a.policies.iter().any(|p| p.statements.iter().any(|s| s.conditions.iter().any(|c| matches!(c, Condition::Rpki(_)))));
+        if a.needs_rpki != has {
+            out.push(("needs-rpki-flag-wrong".to_string(), format!("{who} assignment: needs_rpki = {} but {} of its statements has an RPKI condition: the daemon evaluates it {} the ROA table", a.needs_rpki, if has { "one" } else { "none" }, if a.needs_rpki { "with" } else { "WITHOUT" })));
+        }
+    }
     // the table's own view of the global assignments equals what the daemon enforces
     let listed: Vec<(i32, String)> = sys.pt.iter_assignments(0).map(|(d, a)| (d, asg_dump(a))).collect();
     for (i, d) in [(0usize, 1i32), (1, 2)] {
@@ -2918,6 +2929,7 @@ impl CrudModel {
                     5 => (vec![ConditionConfig::CommunitySet("X0".into(), MatchOption::Any)], Some(Disposition::Accept), Actions::default()),
                     6 => (vec![ConditionConfig::ExtCommunitySet("X0".into(), MatchOption::Any)], Some(Disposition::Accept), Actions::default()),
                     7 => (vec![ConditionConfig::LargeCommunitySet("X0".into(), MatchOption::Any)], Some(Disposition::Accept), Actions::default()),
+                    8 => (vec![ConditionConfig::Rpki(RpkiValidationState::Invalid)], Some(Disposition::Reject), Actions::default()),
                     _ => (vec![], None, Actions { med: Some(MedAction { action_type: MedActionType::Replace, value: 7 }), ..Default::default() }),
                 };
                 sys.pt.add_statement(&sname(*n), conds, disp, acts)
@@ -3148,7 +3160,32 @@ fn crud_models() -> Vec<CrudModel> {
     for i in 0..kinds.len() {
         kops.push(CrudOp::StmtDelAll(i));
     }
-    vec![CrudModel { name: "crud-empty", prefix: vec![], ops: ops.clone() }, CrudModel { name: "crud-full", prefix, ops }, CrudModel { name: "crud-set-kinds", prefix: vec![], ops: kops }]
+    // assignments built up in several steps from policies with and without an RPKI condition
+    let rops: Vec<CrudOp> = vec![
+        CrudOp::StmtAdd(0, 8),
+        CrudOp::StmtAdd(1, 3),
+        CrudOp::PolAdd(0, vec![0]),
+        CrudOp::PolAdd(1, vec![1]),
+        CrudOp::AsgAdd(Dir::Import, 0),
+        CrudOp::AsgAdd(Dir::Import, 1),
+        CrudOp::AsgAdd(Dir::Export, 1),
+        CrudOp::AsgAdd(Dir::Export, 0),
+        CrudOp::AsgSet(Dir::Import, vec![1]),
+        CrudOp::AsgSet(Dir::Import, vec![0, 1]),
+        CrudOp::AsgDelPart(Dir::Import, 0),
+        CrudOp::AsgDelPart(Dir::Import, 1),
+        CrudOp::PeerAdd(0),
+        CrudOp::PeerAdd(1),
+        CrudOp::PeerDelPart(0),
+        CrudOp::PolDel { name: 0, preserve: true, all: true, stmts: vec![] },
+        CrudOp::StmtAdd(1, 8),
+    ];
+    vec![
+        CrudModel { name: "crud-empty", prefix: vec![], ops: ops.clone() },
+        CrudModel { name: "crud-full", prefix, ops },
+        CrudModel { name: "crud-set-kinds", prefix: vec![], ops: kops },
+        CrudModel { name: "crud-rpki-flag", prefix: vec![0, 1, 2, 3], ops: rops },
+    ]
 }
 
 fn crud_run(rep: &mut Report, thorough: bool) {
